@@ -9,7 +9,9 @@ TRUSTED = ['ECDSA unforgeability appears only as the explicit hypothesis hEUF of
 ASSUMPTIONS = ['certificate path validation is out of scope of Exchange.Verify (TODO in the code): "the key holder" = holder of the key in the fetched leaf certificate']
 RULE = ('honest signed exchanges (3 versions x P-256/P-384 x record sizes x payload lengths) and mutants: every bit of the serialized file for small files (quick: sampled 300 bits/file; thorough: all bits), '
         'byte insert/delete/truncate at sampled offsets, every semantic field edited in memory, every Signature parameter edited/removed/duplicated, trailing bytes on sig, foreign certificate / foreign key, '
-        'verification times around the window; compared: ReadExchange result and Exchange.Verify verdict + payload; non-trivial = mutant (not the honest artifact)')
+        'verification times around the window; windows a whole number of wrap periods (2^64 / 2^63 ns, 2^64 us / ms, 2^31 / 2^32 s) away from the verification instant and windows across those overflow points; '
+        'header maps that cannot be encoded (case-colliding keys, pseudo-header keys, either map or both): every serialisation refuses, and whatever the library agrees to sign is verified with its request fields edited; '
+        'compared: ReadExchange result and Exchange.Verify verdict + payload; non-trivial = mutant (not the honest artifact)')
 EXHAUSTIVE = {}
 
 signature = Base.signature; explain = Base.explain
@@ -28,6 +30,102 @@ def nontrivial(op, m):
 def classify(op, m):
     t = op.split(' ')
     return f'{t[0]}:{m.split(" ")[0]}'
+
+
+def wrapped_windows(ctx, k, certurl, vurl):
+    """'t lies inside the signed [date, expires] window', for windows that are a whole number of WRAP PERIODS away from t: an instant kept
+    as int64 / uint64 nanoseconds (UnixNano), micro- or milliseconds, or as 32-bit seconds, wraps, and a window signed for t + period lands
+    on t again (date * 1e9 mod 2^64 <= t_ns <= expires * 1e9 mod 2^64). Independent far-away dates never hit the 7-day-wide sliver, so the
+    dates are computed from the verification instant. Also windows that straddle the points where such a representation overflows.
+    Signed by the real code (Go only), verified by both sides."""
+    NS = 10**9
+    t_sec = 1517418800 + 1800
+    instants = [(t_sec, 0), (t_sec, 500000000), (t_sec, 999999999)]
+    periods = [2**64, 2 * 2**64, 3 * 2**64, 2**63, 2**32 * NS, 2**31 * NS, 2**64 * 1000, 2**64 * 10**6, 2**32 * 1000 * NS]
+    ops, meta = [], []
+
+    def sign(ver, d, x, times):
+        e = ex(ver, b'https://example.com/', b'GET', [(b'Accept', [b'*/*'])] if ver != 'b3' else [], 200, [(b'Content-Type', [b'text/html'])], b'', b'signed for another era')
+        ops.append(f'sxg.sign {exs(e)} 16 {k["cert"]} {k["key"]} {hexs(certurl)} {hexs(vurl)} {d} {x}')
+        meta.append(times)
+    for ver in VERS:
+        for P in periods:
+            for sgn in (1, -1):
+                off = -((-sgn * P) // NS)          # ceil(sgn * P / 1e9): (d + off) * 1e9 = d * 1e9 + sgn * P + (less than a second)
+                # t just inside the start of the aliased window, just inside its end, in the middle of a maximal one
+                for life, back in ((3600, 1), (3600, 3600), (604800, 302400)):
+                    d = t_sec - back + off
+                    if not -2**63 <= d < 2**63 - life: continue
+                    sign(ver, d, d + life, instants + [(d, 0), (d + life, 0)])
+        # windows across the points where seconds * 1e9 leaves int64 / uint64, where seconds leave 31 / 32 bits, and across the epoch
+        for B in (9223372036, 9223372037, -9223372037, 18446744073, 18446744074, 2**31, 2**32, 0):
+            sign(ver, B - 5, B + 5, [(B - 5, 0), (B - 1, 999999999), (B, 0), (B, 999999999), (B + 1, 0), (B + 5, 0), (B + 5, 1), (B - 6, 999999999), (t_sec, 0)])
+    items = []
+    for r, times in zip(ctx.go(ops), meta):
+        se = parse_ex(r) if r else None
+        if not se: continue        # the signer may refuse a date (e.g. a negative one); nothing to verify then
+        for t in times:
+            if -2**62 < t[0] < 2**62:
+                items.append((se, t, {certurl: k['chain']}))
+    verify_stage(ctx, items)
+
+
+def unencodable_request_maps(ctx, rng, k, certurl, vurl, date, expires, t_ok):
+    """Exchanges whose header maps CANNOT be encoded (two keys equal after lower-casing, or a key equal to a pseudo header), built the way
+    a caller builds them (map literal / direct assignment, no canonicalisation): every serialisation of the signed headers must refuse
+    (sxg.hdr / sxg.msg / sxg.write, compared), and IF the library agrees to sign one, the result and every edit of the fields the request
+    map carries go through the verifier, compared with the model (for which such an exchange has no signed message at all)."""
+    ct = (b'Content-Type', [b'text/html'])
+    req_sets = [
+        [(b'Accept', [b'text/html']), (b'accept', [b'*/*'])],
+        [(b'Accept', [b'*/*']), (b'accept', [b'*/*'])],                      # equal values too
+        [(b'ACCEPT', [b'a']), (b'Accept', [b'b']), (b'accept', [b'c'])],
+        [(b'X-A', [b'1']), (b'Accept', [b'*/*']), (b'x-A', [b'2'])],
+        [(b':method', [b'GET']), (b'Accept', [b'text/html'])],
+        [(b':method', [b'HEAD'])],
+        [(b':Method', [b'GET'])],
+        [(b':url', [b'https://example.com/'])],                               # a duplicate in b1 only (b2 signs the URL outside the map)
+        [(b':URL', [b'https://example.com/other'])],
+        [(b':status', [b'200'])],                                             # not a duplicate in the request map
+        [(b'Accept', [b'*/*'])],                                              # control
+    ]
+    resp_sets = [
+        [ct, (b'content-type', [b'text/html'])],
+        [ct, (b'CONTENT-TYPE', [b'text/plain'])],
+        [ct, (b':status', [b'200'])],
+        [ct, (b':Status', [b'404'])],
+        [ct, (b'X-B', [b'1']), (b'x-b', [b'1'])],
+    ]
+    cases = []
+    for ver in VERS:
+        for rq in req_sets:
+            cases.append(ex(ver, b'https://example.com/', b'GET', rq, 200, [ct], b'', b'request map'))
+        for rs_ in resp_sets:
+            cases.append(ex(ver, b'https://example.com/', b'GET', [(b'Accept', [b'*/*'])] if ver != 'b3' else [], 200, rs_, b'', b'response map'))
+        # both maps at once: the first error must not be lost behind the second, nor the second behind the first
+        cases.append(ex(ver, b'https://example.com/', b'GET', req_sets[0], 200, resp_sets[0], b'', b'both maps'))
+    csha = hashlib.sha256(unhex(k['cert'])).hexdigest()
+    pure = []
+    for e in cases:
+        e2 = list(e); e2[6] = hexs(b'label;sig=*AA==*')
+        pure += [f'sxg.hdr {exs(e)}', f'sxg.hdrint {exs(e)}', f'sxg.msg {exs(e)} {csha} {hexs(vurl)} {date} {expires}', f'sxg.msg {exs(e)} nil {hexs(vurl)} {date} {expires}', f'sxg.write {exs(e2)}']
+    ctx.both(pure)
+    sops = [f'sxg.sign {exs(e)} 16 {k["cert"]} {k["key"]} {hexs(certurl)} {hexs(vurl)} {date} {expires}' for e in cases]
+    items = []
+    fetch = {certurl: k['chain']}
+    for e, r in zip(cases, ctx.go(sops)):
+        se = parse_ex(r) if r else None
+        if not se: continue        # refused: the property holds vacuously for this exchange
+        items.append((se, t_ok, fetch))
+        edits = [(2, hexs(b'HEAD')), (2, hexs(b'POST')), (1, hexs(b'https://example.com/some/other/page.html')),
+                 (3, hdrs([(b'Accept', [b'application/evil'])])), (3, '.'), (3, (se[3] + ';' if se[3] != '.' else '') + hexs(b'X-Injected') + '=' + hexs(b'1')),
+                 (3, hdrs([(n, [b'edited'] * len(vs)) for n, vs in [(unhex(p.split('=')[0]), p.split('=')[1].split('|')) for p in se[3].split(';')]]) if se[3] != '.' else '.')]
+        for col, val in edits:
+            e2 = list(se)
+            if e2[col] == val: continue
+            e2[col] = val
+            items.append((e2, t_ok, fetch))
+    verify_stage(ctx, items)
 
 
 def run(ctx):
@@ -207,6 +305,8 @@ def run(ctx):
                 remap[i] = len(out); out.append(it)
         items, reread = out, {remap[i]: f for i, f in reread.items() if i in remap}
     verify_stage(ctx, items, reread)
+    wrapped_windows(ctx, keys[0], certurl, vurl)
+    unencodable_request_maps(ctx, rng, keys[0], certurl, vurl, date, expires, t_ok)
 
     # payloads past 16 MiB (nothing in the format limits the payload; a verifier that caps what it reads must refuse, not cut): the
     # property's own round trip on the real code alone -- the verified payload is the signed payload, byte for byte
